@@ -15,6 +15,10 @@ def specs(tier, seed):
         S.append(sim.spec(t, schedule=(('run', 4),)))
         for d in (0, 0.5, -0.75):
             S.append(sim.spec(t, schedule=(('run', 3),), control=('fixed', d)))
+    for t in ('T4', 'T7'):
+        # continuation while (possibly) held with a non-zero duty cycle: the hold must survive the new run() call
+        S.append(sim.spec(t, schedule=(('run', 2), ('run', 2))))
+        S.append(sim.spec(t, schedule=(('run', 2), ('run', 2)), control=('fixed', 0.5)))
     for t in ('T3', 'T1'):
         S.append(sim.spec(t, schedule=R2, control=arb))
     S.append(sim.spec('T6', schedule=(('run', 3),)))
@@ -42,7 +46,7 @@ REQUIRED_TRIGGERS = {'quick': ('lock.zero_duty_zero_speed', 'lock.pos_duty_nonne
 BOUNDS = {
     'quick': 'two-stage worm trains T8/T9 (self-locking stage first / last, K=3, duty 1 and -0.75); self-locking trains T4 (20 deg / helix 10 deg, f=0.4) and T7 (14.5 deg / helix 5 deg, f=0.3, gears after the '
              'wheel): K=2 with an arbitrary duty cycle in [-1,1] at every instant (zeros and sign changes are models), '
-             'K=4 at the default duty 1, K=3 at fixed duty 0 / 0.5 / -0.75; loads unbounded, either sign; non-self-locking T3/T6 with arbitrary duty (never clamped)',
+             'K=4 at the default duty 1, K=3 at fixed duty 0 / 0.5 / -0.75, continuation 2+2 at duty 1 and 0.5; loads unbounded, either sign; non-self-locking T3/T6 with arbitrary duty (never clamped)',
     'thorough': 'quick + run(2)+run(2) with the arbitrary duty in the second window only + all four pressure angles with friction just below / just above the threshold, K=5, T6 arbitrary duty',
 }
 OUTSIDE = 'K>=3 with an arbitrary duty cycle at every instant (> 8000 paths); symbolic friction (decided in C10)'
